@@ -235,6 +235,27 @@ package querylog
 //@   ensures memory-flushed-when-file-enabled: old(l.conf.FileEnabled) ==> flushCalls == old(flushCalls) + 1
 //@   modifies *
 
+// The log file is opened by name for every flush (append, create if missing) and closed again: that is what makes a
+// clear or a rotation between two flushes safe - no handle survives them.  Every open in the package is one of the known
+// sites: the flush, the read-only readers.
+//@ func (l *queryLog) flushToFile(ctx context.Context, b *bytes.Buffer) (err error)
+//@   property C07
+//@   callsites-only
+//@   requires !held(l.fileWriteLock)
+//@   callsite os.OpenFile(name, flag, perm) requires opened-by-name-for-append: name == l.logFile && flag == 1089
+//@   modifies *
+//@ func newQLogFile(path string) (qf *qLogFile, err error)
+//@   property C07
+//@   callsites-only
+//@   callsite os.OpenFile(name, flag, perm) requires read-only: name == path && flag == 0
+//@   modifies *
+//@ func (l *queryLog) readFileFirstTimeValue(ctx context.Context) (first time.Time, err error)
+//@   property C07
+//@   callsites-only
+//@   callsite os.Open(name) requires read-only-current-file: name == l.logFile
+//@   modifies *
+//@ sweep C07 os.OpenFile, os.Open, os.Create
+
 // ---- C11: routes are registered through the authenticating helper with a non-empty method ----
 // (an empty method is reserved for the DNS-over-HTTPS resolver paths and skips authentication in home.httpRegister)
 //@ package-callsite functype:github.com/AdguardTeam/AdGuardHome/internal/aghhttp.RegisterFunc(method, url, handler) requires method != "" || url == "/dns-query" || url == "/dns-query/"
@@ -252,6 +273,11 @@ package querylog
 //@ sweep C05 fieldcall:github.com/AdguardTeam/AdGuardHome/internal/querylog.Config.ConfigModified
 
 // ---- C08: a name on the ignore list, or a client flagged to be ignored, is never logged ----
+// qlOK: the verdict of the most recent ShouldLog asked through the interface (what the DNS server sees).
+//@ ghost var qlOK bool
+//@ func (l QueryLog) ShouldLog(host string, qt uint16, cl uint16, ids []string) (r0 bool)
+//@   ghost at return: qlOK = r0
+//@   modifies qlOK
 // The anonymiser shared with the DNS server follows the setting: after every configuration request (accepted or refused)
 // the mutator holds a real anonymiser exactly when the configuration in force says so - for the *new* configuration,
 // whichever way the request changed it.  (The configuration-modified callback writes the file and changes nothing here:
